@@ -130,7 +130,7 @@ def handle_path_command(args: argparse.Namespace) -> None:  # noqa: PLR0912, D10
     try:
         data = json.load(args.file)
         values = path.find(data).values()
-    except json.JSONDecodeError as err:
+    except (json.JSONDecodeError, UnicodeDecodeError) as err:
         if args.debug:
             raise
         sys.stderr.write(f"target document json decode error: {err}\n")
